@@ -42,8 +42,8 @@ theorem silent_step (s s' : State) (e : Ev) (h : Ctl s) (w : Nat) (r : Option Na
     simp only [step, hclosed, if_true, Option.some.injEq] at hs; subst hs; exact ⟨rfl, hret, rfl, rfl⟩
   | tick => simp [step, hex] at hs
   | exit => simp [step, hex] at hs
-  | loop => simp [step, hex] at hs
-  | closer t =>
+  | loop ch => simp [step, hex] at hs
+  | closer t ch =>
     have hmid : 1 ≤ ph (s.closers t) → t = w := by
       intro hp
       have := h.winner_of t hp
